@@ -2500,9 +2500,13 @@ public:
     // Back the string bytes into 32-bit words.
     uint32_t packedWord = 0;
     packedWord |= value.size() & 0xFF;
+    if (value.empty()) {
+      // The empty string is a single word holding the zero length.
+      genData(packedWord);
+    }
     for (size_t strByteIndex = 0; strByteIndex < value.size(); strByteIndex++) {
       auto bytePos = (strByteIndex + 1) % 4;
-      packedWord |= value[strByteIndex] << (bytePos * 8);
+      packedWord |= static_cast<uint32_t>(static_cast<unsigned char>(value[strByteIndex])) << (bytePos * 8);
       if (bytePos == 3 || strByteIndex == (value.size() - 1)) {
         genData(packedWord);
         packedWord = 0;
